@@ -40,8 +40,6 @@ import (
 	"github.com/veesix-networks/osvbng/pkg/config/subscriber"
 	"github.com/veesix-networks/osvbng/pkg/dataplane"
 	"github.com/veesix-networks/osvbng/pkg/dhcp6"
-	"github.com/veesix-networks/osvbng/pkg/provider"
-	"context"
 	"github.com/veesix-networks/osvbng/pkg/events"
 	"github.com/veesix-networks/osvbng/pkg/ifmgr"
 	"github.com/veesix-networks/osvbng/pkg/logger"
@@ -50,6 +48,7 @@ import (
 	pkgpppoe "github.com/veesix-networks/osvbng/pkg/pppoe"
 	"github.com/veesix-networks/osvbng/pkg/southbound"
 	"github.com/veesix-networks/osvbng/pkg/svcgroup"
+	local6 "github.com/veesix-networks/osvbng/plugins/dhcp6/local"
 )
 
 type c03Sub struct{}
@@ -114,20 +113,28 @@ func (b *c03Bus) Publish(topic string, ev events.Event) {
 // c03LogHook sees the component's debug log.  handleAAAResponse logs "Received AAA response" after it has found the
 // session by its pending request id and before it takes the session lock: that line tells the harness that the
 // answer has been matched and is now waiting for the lock the harness holds (forced overlap, see step "R:").
+// With [park] set the goroutine that logs the line is held inside the log call until the harness closes the channel
+// (step "S:"): the answer is then matched but has not asked for the session lock yet.
 type c03LogHook struct {
 	mu      sync.Mutex
 	armed   bool
 	reached chan struct{}
+	park    chan struct{}
 }
 
 func (w *c03LogHook) Write(p []byte) (int, error) {
 	if strings.Contains(string(p), "Received AAA response") {
+		var park chan struct{}
 		w.mu.Lock()
 		if w.armed {
 			w.armed = false
+			park = w.park
 			close(w.reached)
 		}
 		w.mu.Unlock()
+		if park != nil {
+			<-park
+		}
 	}
 	return len(p), nil
 }
@@ -183,34 +190,9 @@ func (s *c03SB) PPPoESetSessionIPv6Async(swIfIndex uint32, clientIP net.IP, isAd
 	callback(nil)
 }
 
-// c03DH6 is a stand-in DHCPv6 server: ADVERTISE for a SOLICIT, REPLY with an IA_NA address for a REQUEST/RENEW.
-// (The gate in front of it is what is checked; address bookkeeping of the real local provider is C02's.)
-type c03DH6 struct{}
-
-func (c03DH6) Info() provider.Info { return provider.Info{Name: "c03dh6"} }
-func (c03DH6) ReleaseLease([]byte) {}
-func (c03DH6) HandlePacket(ctx context.Context, pkt *dhcp6.Packet) (*dhcp6.Packet, error) {
-	if len(pkt.Raw) < 4 {
-		return nil, nil
-	}
-	mt := byte(dhcp6.MsgTypeReply)
-	if dhcp6.MessageType(pkt.Raw[0]) == dhcp6.MsgTypeSolicit {
-		mt = byte(dhcp6.MsgTypeAdvertise)
-	}
-	raw := []byte{mt, pkt.Raw[1], pkt.Raw[2], pkt.Raw[3]}
-	opt := func(code uint16, data []byte) {
-		b := make([]byte, 4)
-		binary.BigEndian.PutUint16(b[0:2], code)
-		binary.BigEndian.PutUint16(b[2:4], uint16(len(data)))
-		raw = append(raw, append(b, data...)...)
-	}
-	opt(1, pkt.DUID)
-	opt(2, []byte{0, 3, 0, 1, 2, 2, 2, 2, 2, 2})
-	ia := []byte{0, 0, 0, 1, 0, 0, 0, 100, 0, 0, 0, 200}
-	addr := append(net.ParseIP("2001:db8:77::9").To16(), 0, 0, 14, 16, 0, 0, 28, 32)
-	ia = append(ia, append([]byte{0, 5, 0, 24}, addr...)...)
-	opt(3, ia)
-	return &dhcp6.Packet{Raw: raw}, nil
+func (s *c03SB) PPPoESetDelegatedPrefixAsync(swIfIndex uint32, prefix net.IPNet, nextHop net.IP, isAdd bool, callback func(error)) {
+	s.h.emit(strconv.Itoa(s.h.curSlot), map[bool]string{true: "sbpd+", false: "sbpd-"}[isAdd])
+	callback(nil)
 }
 
 type c03Harness struct {
@@ -232,29 +214,47 @@ type c03Harness struct {
 }
 
 func c03Service(tok string) bool {
-	if tok == "RA" || tok == "NA" || tok == "lifeA" || tok == "sbadd" || tok == "ADV6" || tok == "REPLY6" || tok == "sb6+" {
+	if tok == "RA" || tok == "NA" || tok == "lifeA" || tok == "sbadd" || tok == "ADV6" || tok == "REPLY6" || tok == "sb6+" || tok == "sbpd+" {
 		return true
 	}
 	return len(tok) >= 2 && (tok[0] == 'I' || tok[0] == 'V') && tok[1] >= '0' && tok[1] <= '9'
 }
 
 // monStep: ev is the input event, lcpBefore the LCP FSM states before it, outs the step's outputs (who+token).
-func (h *c03Harness) monStep(ev string, lcpBefore [3]int, availBefore int) {
+func (h *c03Harness) monStep(ev string, lcpBefore [3]int, availBefore [3]int, liveBefore [3]*SessionState) {
+	inputs := []string{ev}
 	if strings.HasPrefix(ev, "R:") {
-		ev = strings.SplitN(ev, "&", 2)[1]
+		inputs = []string{strings.SplitN(ev, "&", 2)[1]}
+	} else if strings.HasPrefix(ev, "S:") {
+		inputs = strings.SplitN(ev[2:], "&", 2)
 	}
-	f := strings.Split(ev, ":")
-	switch f[0] {
-	case "o", "x", "d":
-		i, _ := strconv.Atoi(f[1])
-		if i >= 0 && i < 3 {
-			h.monCur[i], h.monOK[i] = 0, false
-		}
-	case "a":
-		k, _ := strconv.Atoi(f[1])
-		for i := 0; i < 3; i++ {
-			if h.monCur[i] != 0 && h.monCur[i] == k && (f[2] == "acc" || f[2] == "accip") {
-				h.monOK[i] = true
+	// the slots whose handlers this step runs: the one the event addresses, or the one whose request an answer is for
+	addressed := map[int]bool{}
+	if strings.HasPrefix(ev, "R:") {
+		i, _ := strconv.Atoi(strings.Split(ev[2:], ":")[0])
+		addressed[i] = true
+	}
+	for _, in := range inputs {
+		f := strings.Split(in, ":")
+		switch f[0] {
+		case "o", "x", "d":
+			i, _ := strconv.Atoi(f[1])
+			if i >= 0 && i < 3 {
+				h.monCur[i], h.monOK[i] = 0, false
+				addressed[i] = true
+			}
+		case "f", "t":
+			i, _ := strconv.Atoi(f[1])
+			addressed[i] = true
+		case "a":
+			k, _ := strconv.Atoi(f[1])
+			for i := 0; i < 3; i++ {
+				if h.monCur[i] != 0 && h.monCur[i] == k {
+					addressed[i] = true
+					if f[2] == "acc" || f[2] == "accip" {
+						h.monOK[i] = true
+					}
+				}
 			}
 		}
 	}
@@ -299,19 +299,31 @@ func (h *c03Harness) monStep(ev string, lcpBefore [3]int, availBefore int) {
 		live := h.c.sidIndex[s.PPPoESessionID] == s
 		h.c.sessionMu.RUnlock()
 		s.mu.Lock()
-		held := s.allocatedPool != "" && s.IPv4Address != nil
+		held := (s.allocatedPool != "" && s.IPv4Address != nil) || c03HeldV6(h.reg, s.SessionID) > 0
 		net := s.Phase == ppp.PhaseNetwork || s.Phase == ppp.PhaseOpen
 		s.mu.Unlock()
 		if live && !net && held {
 			viol(i)
 		}
 	}
-	// an address leaving the pool is a service output of whoever caused it: the slot the event addressed,
-	// or, for an AAA response, any slot (it must then be authorised)
-	if c03Avail(h.reg) < availBefore {
+	// an address or prefix leaving a pool is a service output of whoever caused it: the slot the event addressed or,
+	// for an AAA response, the slot whose outstanding request it answers (it must then be authorised)
+	// teardown: a session that left the indexes during this step holds nothing in the registry any more
+	for i, s := range liveBefore {
+		if s == nil {
+			continue
+		}
+		h.c.sessionMu.RLock()
+		live := h.c.sidIndex[s.PPPoESessionID] == s
+		h.c.sessionMu.RUnlock()
+		if !live && c03Held(h.reg, s.SessionID) > 0 {
+			viol(i)
+		}
+	}
+	if c03Less(c03Avail(h.reg), availBefore) {
 		ok := false
 		for i := 0; i < 3; i++ {
-			if h.monOK[i] {
+			if h.monOK[i] && addressed[i] {
 				ok = true
 			}
 		}
@@ -425,17 +437,66 @@ func (h *c03Harness) onEgress(eg *events.EgressEvent) {
 	h.emit(who, tag+strconv.Itoa(int(body[0])))
 }
 
-func c03Avail(reg *allocator.Registry) int {
-	f := reflect.ValueOf(reg).Elem().FieldByName("allocators")
-	m := reflect.NewAt(f.Type(), unsafe.Pointer(f.UnsafeAddr())).Elem().Interface().(map[string]*allocator.PoolAllocator)
-	n := 0
+// c03Avail: free IPv4 pool addresses, free IA_NA addresses, free delegated prefixes of the real registry.
+func c03Avail(reg *allocator.Registry) [3]int {
+	var r [3]int
+	for k, field := range []string{"allocators", "ianaAllocators"} {
+		f := reflect.ValueOf(reg).Elem().FieldByName(field)
+		m := reflect.NewAt(f.Type(), unsafe.Pointer(f.UnsafeAddr())).Elem().Interface().(map[string]*allocator.PoolAllocator)
+		for _, a := range m {
+			r[k] += a.Available()
+		}
+	}
+	f := reflect.ValueOf(reg).Elem().FieldByName("pdAllocators")
+	m := reflect.NewAt(f.Type(), unsafe.Pointer(f.UnsafeAddr())).Elem().Interface().(map[string]*allocator.PrefixAllocator)
 	for _, a := range m {
-		n += a.Available()
+		ff := reflect.ValueOf(a).Elem().FieldByName("free")
+		r[2] += ff.Len()
+	}
+	return r
+}
+
+func c03Less(a, b [3]int) bool { return a[0] < b[0] || a[1] < b[1] || a[2] < b[2] }
+
+// c03Held counts the registry leases (IPv4, IA_NA, PD) recorded for a session id.
+func c03Held(reg *allocator.Registry, sessID string) int {
+	n := 0
+	for _, field := range []string{"allocators", "ianaAllocators", "pdAllocators"} {
+		f := reflect.ValueOf(reg).Elem().FieldByName(field)
+		it := reflect.NewAt(f.Type(), unsafe.Pointer(f.UnsafeAddr())).Elem().MapRange()
+		for it.Next() {
+			lf := it.Value().Elem().FieldByName("leases")
+			lt := reflect.NewAt(lf.Type(), unsafe.Pointer(lf.UnsafeAddr())).Elem().MapRange()
+			for lt.Next() {
+				if lt.Value().String() == sessID {
+					n++
+				}
+			}
+		}
 	}
 	return n
 }
 
-func c03NewHarness(poolSize int) *c03Harness {
+// c03HeldV6: IA_NA and PD leases only.
+func c03HeldV6(reg *allocator.Registry, sessID string) int {
+	n := 0
+	for _, field := range []string{"ianaAllocators", "pdAllocators"} {
+		f := reflect.ValueOf(reg).Elem().FieldByName(field)
+		it := reflect.NewAt(f.Type(), unsafe.Pointer(f.UnsafeAddr())).Elem().MapRange()
+		for it.Next() {
+			lf := it.Value().Elem().FieldByName("leases")
+			lt := reflect.NewAt(lf.Type(), unsafe.Pointer(lf.UnsafeAddr())).Elem().MapRange()
+			for lt.Next() {
+				if lt.Value().String() == sessID {
+					n++
+				}
+			}
+		}
+	}
+	return n
+}
+
+func c03NewHarness(poolSize, pool6, poolPD int) *c03Harness {
 	v4 := map[string]*ip.IPv4Profile{
 		"v4": {Gateway: "10.55.0.1", Pools: []ip.IPv4Pool{{Name: "p", Network: "10.55.0.0/24",
 			RangeStart: "10.55.0.2", RangeEnd: "10.55.0." + strconv.Itoa(1+poolSize)}}},
@@ -444,13 +505,31 @@ func c03NewHarness(poolSize int) *c03Harness {
 		v4["v4"].Pools[0].RangeStart = "10.55.0.1"
 		v4["v4"].Pools[0].RangeEnd = "10.55.0.1" // only the (excluded) gateway
 	}
+	// the IPv6 profile: pool6 IA_NA addresses and poolPD (0 or a power of two) delegated /56 prefixes
+	v6 := map[string]*ip.IPv6Profile{
+		"v6": {IANAPools: []ip.IANAPool{{Name: "p6", Network: "2001:db8:55::/64", RangeStart: "2001:db8:55::10",
+			RangeEnd: "2001:db8:55::" + strconv.FormatInt(int64(0x10+pool6-1), 16), Gateway: "2001:db8:55::1",
+			PreferredTime: 3600, ValidTime: 7200}}},
+	}
+	if pool6 == 0 {
+		v6["v6"].IANAPools[0].RangeStart, v6["v6"].IANAPools[0].RangeEnd = "2001:db8:55::1", "2001:db8:55::1"
+	}
+	if poolPD > 0 {
+		bits := 0
+		for (1 << bits) < poolPD {
+			bits++
+		}
+		v6["v6"].PDPools = []ip.PDPool{{Name: "pd", Network: "2001:db8:5000::/" + strconv.Itoa(56-bits), PrefixLength: 56,
+			PreferredTime: 3600, ValidTime: 7200}}
+	}
 	cfg := &config.Config{
 		SubscriberGroups: &subscriber.SubscriberGroupsConfig{
 			Groups: map[string]*subscriber.SubscriberGroup{
-				"grp": {IPv4Profile: "v4", VLANs: []subscriber.VLANRange{{SVLAN: "100"}}},
+				"grp": {IPv4Profile: "v4", IPv6Profile: "v6", VLANs: []subscriber.VLANRange{{SVLAN: "100"}}},
 			},
 		},
 		IPv4Profiles: v4,
+		IPv6Profiles: v6,
 	}
 	ifMgr := ifmgr.New()
 	ifMgr.Add(&ifmgr.Interface{SwIfIndex: 10, SupSwIfIndex: 2, Name: "TenGigE0/0.100", Type: ifmgr.IfTypeSub, OuterVlanID: 100})
@@ -459,7 +538,11 @@ func c03NewHarness(poolSize int) *c03Harness {
 	h := &c03Harness{lastReq: map[string]uint8{}, hook: &c03LogHook{}}
 	h.bus = &c03Bus{h: h}
 	h.sb = &c03SB{h: h, nextIf: 1000}
-	h.reg = allocator.InitGlobalRegistry(v4, nil)
+	h.reg = allocator.InitGlobalRegistry(v4, v6)
+	p6, err := local6.New(cfg) // the real local DHCPv6 server; forwardDHCPv6 hands it what dhcp.ResolveV6 resolved
+	if err != nil {
+		panic(err)
+	}
 	ck, err := pkgpppoe.NewCookieManager(cookieTTL)
 	if err != nil {
 		panic(err)
@@ -483,7 +566,7 @@ func c03NewHarness(poolSize int) *c03Harness {
 		ipv6Index:        make(map[string]*SessionState),
 		raBuckets:        make(map[int][]string),
 		raBucketCount:    16,
-		dhcp6Providers:   map[string]dhcp6.DHCPProvider{"local": c03DH6{}},
+		dhcp6Providers:   map[string]dhcp6.DHCPProvider{"local": p6},
 		dhcp6Sem:         make(chan struct{}, 16),
 		registry:         h.reg,
 		nextSessionID:    1,
@@ -638,7 +721,8 @@ func (h *c03Harness) frame(i int, proto, kind string) (uint16, []byte, bool) {
 				mt = byte(dhcp6.MsgTypeRequest)
 			}
 			d := []byte{mt, 0, 0, byte(i + 1), 0, 1, 0, 10, 0, 3, 0, 1, 0xaa, 0, 0, 0, 0, byte(i + 1),
-				0, 3, 0, 12, 0, 0, 0, 1, 0, 0, 0, 0, 0, 0, 0, 0}
+				0, 3, 0, 12, 0, 0, 0, 1, 0, 0, 0, 0, 0, 0, 0, 0,
+				0, 25, 0, 12, 0, 0, 0, 2, 0, 0, 0, 0, 0, 0, 0, 0} // client id, IA_NA, IA_PD
 			return ppp.ProtoIPv6, c03UDP6(cli, net.ParseIP("ff02::1:2"), 546, 547, d), true
 		}
 	case "unk":
@@ -693,10 +777,14 @@ func (h *c03Harness) sendFrame(i int, proto, kind string) {
 		PPP:   &layers.PPP{PPPType: layers.PPPType(pnum), BaseLayer: layers.BaseLayer{Payload: payload}},
 	}
 	_ = h.c.handlePacket(pkt) // errors (short frame etc.) are only logged by the real receive loop
-	// DHCPv6 over PPP is answered by a bounded worker off the session lock: wait for it
-	for k := 0; k < 2000 && len(h.c.dhcp6Sem) > 0; k++ {
-		time.Sleep(50 * time.Microsecond)
-	}
+	h.waitWorkers()
+}
+
+// waitWorkers: DHCPv6 over PPP is answered by a worker started with Base.Go off the session lock; the harness starts
+// nothing else with Base.Go, so waiting for the component's wait group is waiting for exactly that worker.
+func (h *c03Harness) waitWorkers() {
+	f := reflect.ValueOf(h.c.Base).Elem().FieldByName("wg")
+	(*sync.WaitGroup)(unsafe.Pointer(f.UnsafeAddr())).Wait()
 }
 
 // raced: the frame is processed by the receive path (which owns the session lock, as handlePPP does) while the AAA
@@ -718,7 +806,7 @@ func (h *c03Harness) raced(i int, proto, kind string, k int, akind string) {
 	h.c.sessionMu.RUnlock()
 	s.mu.Lock() // handlePPP: s.mu.Lock(); defer s.mu.Unlock(); dispatcher.HandleFrame
 	h.hook.mu.Lock()
-	h.hook.armed, h.hook.reached = true, make(chan struct{})
+	h.hook.armed, h.hook.reached, h.hook.park = true, make(chan struct{}), nil
 	reached := h.hook.reached
 	h.hook.mu.Unlock()
 	done := make(chan interface{}, 1)
@@ -733,6 +821,7 @@ func (h *c03Harness) raced(i int, proto, kind string, k int, akind string) {
 	case pa = <-done: // no session matched: the answer was dropped before touching the session
 		finished = true
 	case <-time.After(2 * time.Second):
+		h.emit("?", "nohook") // the log line the hook keys on is gone: make it visible instead of silently serialising
 	}
 	h.hook.mu.Lock()
 	h.hook.armed = false
@@ -759,9 +848,47 @@ func (h *c03Harness) raced(i int, proto, kind string, k int, akind string) {
 	if pa != nil {
 		panic(pa)
 	}
-	for k := 0; k < 2000 && len(h.c.dhcp6Sem) > 0; k++ {
-		time.Sleep(50 * time.Microsecond)
+	h.waitWorkers()
+}
+
+// parked: the AAA answer has been matched to its session by the pending request id (handleAAAResponse has left the
+// component lock and logged the match) and is held there, before it asks for the session lock, while another event
+// — PADT, dead peer, a timer, a frame, a new PADR — is handled completely through the normal entry points.
+func (h *c03Harness) parked(ev string, k int, akind string) {
+	h.hook.mu.Lock()
+	h.hook.armed, h.hook.reached, h.hook.park = true, make(chan struct{}), make(chan struct{})
+	reached, park := h.hook.reached, h.hook.park
+	h.hook.mu.Unlock()
+	done := make(chan interface{}, 1)
+	go func() {
+		defer func() { done <- recover() }()
+		h.aaa(k, akind)
+	}()
+	finished := false
+	var pa interface{}
+	select {
+	case <-reached:
+	case pa = <-done: // no session matched: the answer was dropped before touching any session
+		finished = true
+	case <-time.After(2 * time.Second):
+		h.emit("?", "nohook") // the log line the hook keys on is gone: make it visible instead of silently serialising
 	}
+	h.hook.mu.Lock()
+	h.hook.armed, h.hook.park = false, nil
+	h.hook.mu.Unlock()
+	h.step(ev)
+	close(park)
+	if !finished {
+		select {
+		case pa = <-done:
+		case <-time.After(5 * time.Second):
+			panic("parked: handleAAAResponse did not return")
+		}
+	}
+	if pa != nil {
+		panic(pa)
+	}
+	h.waitWorkers()
 }
 
 func (h *c03Harness) aaa(k int, kind string) {
@@ -835,7 +962,8 @@ func (h *c03Harness) status() string {
 		s.mu.Unlock()
 		_ = i
 	}
-	return strings.Join(parts, ",") + "|" + strconv.Itoa(c03Avail(h.reg))
+	a := c03Avail(h.reg)
+	return strings.Join(parts, ",") + "|" + strconv.Itoa(a[0]) + "/" + strconv.Itoa(a[1]) + "/" + strconv.Itoa(a[2])
 }
 
 func (h *c03Harness) step(ev string) {
@@ -853,6 +981,10 @@ func (h *c03Harness) step(ev string) {
 		fa := strings.Split(ab[0], ":")
 		fb := strings.Split(ab[1], ":")
 		h.raced(idx(fa[0]), fa[1], fa[2], idx(fb[1]), fb[2])
+	case "S": // S:<event>&a:<k>:<akind>
+		ab := strings.SplitN(ev[2:], "&", 2)
+		fb := strings.Split(ab[1], ":")
+		h.parked(ab[0], idx(fb[1]), fb[2])
 	case "t":
 		s := h.sess[idx(f[1])]
 		if s == nil {
@@ -932,8 +1064,15 @@ func c03RunCase(line string) (res string) {
 	if len(f) < 2 || f[0] != "pppoe" {
 		return "badcase"
 	}
-	ps, _ := strconv.Atoi(f[1])
-	h := c03NewHarness(ps)
+	// pool sizes: <ipv4> or <ipv4>/<ia_na>/<pd>
+	pf := strings.Split(f[1], "/")
+	ps, _ := strconv.Atoi(pf[0])
+	p6n, ppd := 16, 16
+	if len(pf) == 3 {
+		p6n, _ = strconv.Atoi(pf[1])
+		ppd, _ = strconv.Atoi(pf[2])
+	}
+	h := c03NewHarness(ps, p6n, ppd)
 	defer h.close()
 	var steps []string
 	done := make(chan string, 1)
@@ -956,8 +1095,16 @@ func c03RunCase(line string) (res string) {
 				}
 			}
 			ab := c03Avail(h.reg)
+			var lv [3]*SessionState
+			h.c.sessionMu.RLock()
+			for i, s := range h.sess {
+				if s != nil && h.c.sidIndex[s.PPPoESessionID] == s {
+					lv[i] = s
+				}
+			}
+			h.c.sessionMu.RUnlock()
 			h.step(ev)
-			h.monStep(ev, lb, ab)
+			h.monStep(ev, lb, ab, lv)
 			o := append([]string(nil), h.out...)
 			steps = append(steps, strings.Join(o, ",")+"|"+h.status())
 		}
